@@ -11,13 +11,25 @@ use crate::ws::Ws;
 
 pub struct C07;
 
-pub const FILES: [&str; 3] = ["a", "b", "c"];
+pub const FILES: [&str; 4] = ["a", "b", "c", "sub/d"];
 
 fn path(f: usize) -> String {
     format!("/ws/{}.td", FILES[f])
 }
 
-pub const VARIANTS: usize = 5;
+/// Two files with fixed texts in a subdirectory: d can become the root, e is found only from there.
+const D_TEXT: &str = "include \"e.td\"\nclass KD : KE;\n";
+const E_PATH: &str = "/ws/sub/e.td";
+const E_TEXT: &str = "class KE;\n";
+
+fn all_files(variants: &[usize; 3]) -> Vec<(String, String)> {
+    let mut v: Vec<(String, String)> = (0..3).map(|f| (path(f), variant(f, variants[f]))).collect();
+    v.push((path(3), D_TEXT.to_string()));
+    v.push((E_PATH.to_string(), E_TEXT.to_string()));
+    v
+}
+
+pub const VARIANTS: usize = 6;
 
 /// Text variants of file `f`; the include target is the next file (a->b->c->a), in variant 4 the
 /// previous one - at the same byte range as in variant 1, so only the path text differs.
@@ -27,6 +39,8 @@ pub fn variant(f: usize, v: usize) -> String {
     let prev = FILES[(f + 2) % 3];
     match v {
         4 => format!("include \"{prev}.td\"\nclass K{x};\nclass {x}4 : K{prev};\n"),
+        // a file that exists only in the subdirectory: not found from here, whatever was the root before
+        5 => format!("include \"e.td\"\nclass K{x};\nclass {x}5 : KE;\n"),
         // (an anonymous def with a field of its own: its generated name shows in hover)
         0 => format!("class K{x};\nclass {x}0;\ndef {{ int depth{x} = 1; }}\n"),
         1 => format!("include \"{next}.td\"\nclass K{x};\nclass {x}1 : K{next};\n"),
@@ -63,9 +77,17 @@ pub fn ops() -> Vec<Op> {
         }
     }
     for f in 0..3 {
-        for var in 0..VARIANTS {
+        for var in 0..5 {
             v.push(Op::Disk(f, var));
         }
+    }
+    // the subdirectory: the include that resolves only from there, and the root switch into it
+    for f in 0..3 {
+        v.push(Op::Edit(f, 5));
+    }
+    v.push(Op::Root(3));
+    for f in 0..3 {
+        v.push(Op::Disk(f, 5));
     }
     v
 }
@@ -93,7 +115,7 @@ pub fn run_history(h: &[usize], compare_every_step: bool) -> (Option<(String, St
     let all = ops();
     let mut variants = [0usize; 3];
     let mut root = 0usize;
-    let files0: Vec<(String, String)> = (0..3).map(|f| (path(f), variant(f, 0))).collect();
+    let files0 = all_files(&variants);
     let mut live = Ws::new(&files0, &path(0));
     let mut states = vec![(root, variants)];
     let mut compares = 0;
@@ -105,7 +127,7 @@ pub fn run_history(h: &[usize], compare_every_step: bool) -> (Option<(String, St
             }
             Op::Root(f) => {
                 root = f;
-                let text = variant(f, variants[f]);
+                let text = if f == 3 { D_TEXT.to_string() } else { variant(f, variants[f]) };
                 live.touch(&path(f), &text);
             }
             Op::Disk(f, v) => {
@@ -122,7 +144,7 @@ pub fn run_history(h: &[usize], compare_every_step: bool) -> (Option<(String, St
         states.push((root, variants));
         if compare_every_step || k + 1 == h.len() {
             compares += 1;
-            let files: Vec<(String, String)> = (0..3).map(|f| (path(f), variant(f, variants[f]))).collect();
+            let files = all_files(&variants);
             let fresh = Ws::new(&files, &path(root));
             let t_live = transcript(&live);
             let t_fresh = transcript(&fresh);
@@ -169,9 +191,9 @@ impl Engine for C07 {
 
     fn rule(&self, tier: Tier) -> String {
         format!(
-            "every history of <= {} operations over 33 operations (Edit(file, variant) for 3 files x 5 text variants keeping the root; Root(file); Disk(file, variant) = a non-root file changes on disk and the root is re-selected) \
+            "every history of <= {} operations over 40 operations (Edit(file, variant) for 3 files x 6 text variants keeping the root; Root(file) for the three files and for a fourth in a subdirectory; Disk(file, variant) = a non-root file changes on disk and the root is re-selected) \
              and every history of exactly {} operations over 12 base operations (Edit to plain / include-next / include-previous, Root), starting from root a, all files plain; \
-             variants: plain (with an anonymous def that has a field) / includes the next file (a->b->c->a, so cycles arise) / same with the include statement moved down two lines / a faulty def / includes the PREVIOUS file at the same byte range as variant 1 (only the path differs); \
+             variants: plain (with an anonymous def that has a field) / includes the next file (a->b->c->a, so cycles arise) / same with the include statement moved down two lines / a faulty def / includes the PREVIOUS file at the same byte range as variant 1 (only the path differs) / includes a file that exists only in the subdirectory of the fourth root (it resolves from there, never from here); \
              after the last operation of every history (every history is a prefix of longer ones, so every step of every history is compared) the full query transcript of the live host \
              equals that of a fresh host given only the current texts and root. states = distinct (root, variants) configurations reached; transitions = operations applied; non-trivial = histories with an include present at some point.",
             tier.pick(3, 4),
